@@ -57,6 +57,13 @@ namespace FIX8
 }
 
 //-------------------------------------------------------------------------------------------------
+const char *Logger::stop_marker()
+{
+	static const char marker[] = "stop";
+	return marker;
+}
+
+//-------------------------------------------------------------------------------------------------
 int Logger::operator()()
 {
    unsigned received(0);
@@ -90,7 +97,7 @@ int Logger::operator()()
 
 		if (msg_ptr)
 		{
-			if (msg_ptr->_str.empty() && _stopping)  // the empty line stop() queues means exit; an empty line logged earlier is just a line
+			if (msg_ptr->_fileline == stop_marker())  // the element stop() queues means exit; an empty line that was logged is just a line
 			{
 #if (FIX8_MPMC_SYSTEM == FIX8_MPMC_FF)
 				break;
